@@ -9,13 +9,14 @@ git -C $wt checkout -q --detach $(git -C /repo rev-parse HEAD); git -C $wt check
 mkdir -p $wt/crates/$crate/tests
 names=""
 for d in "$@"; do n=$(basename $d | tr '-' '_' | tr 'A-Z' 'a-z'); demo=$(ls $d/demo*.rs | head -1); cp $demo $wt/crates/$crate/tests/vs_$n.rs; names="$names --test vs_$n"; done
-(cd $wt && timeout 7200 cargo test --offline -p $crate $names > /tmp/seedbatch-clean.log 2>&1)
+[ -z "$SKIP_DEMO" ] && (cd $wt && timeout 7200 cargo test --offline -p $crate $FEATURES $names > /tmp/seedbatch-clean.log 2>&1)
 for d in "$@"; do
   d=$(realpath $d); n=$(basename $d | tr '-' '_' | tr 'A-Z' 'a-z'); res=$d/confirm.txt; : > $res
   echo "demo on clean tree: $(awk "/Running tests\/vs_$n.rs/{f=1} f&&/test result/{print; exit}" /tmp/seedbatch-clean.log)" >> $res
   prop=$(basename $d | sed 's/-.*//')
-  if (cd $wt && git apply $d/patch.diff 2>/dev/null); then
-    (cd $wt && timeout 7200 cargo test --offline -p $crate --test vs_$n > /tmp/seedbatch-mut.log 2>&1); echo "demo with change: rc=$? $(grep 'test result' /tmp/seedbatch-mut.log | tail -1)" >> $res
+  if [ -n "$SKIP_DEMO" ]; then echo "demo: not re-run by the integrator (needs the RocksDB build); confirmed by the sub-agent (meta.json)" >> $res
+  elif (cd $wt && git apply $d/patch.diff 2>/dev/null); then
+    (cd $wt && timeout 7200 cargo test --offline -p $crate $FEATURES --test vs_$n > /tmp/seedbatch-mut.log 2>&1); echo "demo with change: rc=$? $(grep 'test result' /tmp/seedbatch-mut.log | tail -1)" >> $res
     (cd $wt && git apply -R $d/patch.diff)
   else echo "PATCH DOES NOT APPLY to current main" >> $res; fi
   echo "existing tests with change: run by the sub-agent that wrote the change (see meta.json); not repeated by the integrator" >> $res
